@@ -5,9 +5,10 @@ import json
 import os
 
 from core import LeanDriver, canon, CORPUS_DIR
+from gen import removalplan
 
 ID = "C08"
-GENERATORS = []
+GENERATORS = [removalplan.generate]
 LEAN_MODULES = ["FimVerif.Proofs.C08"]
 P = "FimVerif.C08."
 THEOREMS = [P + t for t in (
@@ -21,31 +22,43 @@ THEOREMS = [P + t for t in (
     "remove_service_exact_wf", "remove_link_exact_wf", "remove_child_exact_wf", "disconnect_exact_wf", "unpeer_exact_wf",
     "prune_exact_wf", "remove_after_wf", "handle_fresh_disconnect_wf", "handle_fresh_removeChild_wf", "handle_fresh_unpeer_wf",
     # names and the collection phase of prune
-    "lookup_spec", "remove_byName", "remove_byName_child", "remove_node_absent_name", "prune_collect_sound", "prune_api_exact",
+    "lookup_spec", "remove_byName", "remove_byName_child", "remove_node_absent_name", "prune_collect_sound", "prune_collect_complete", "prune_api_exact",
+    # the generated plans: the model the driver runs is the model the theorems are about
+    "plan_bridge", "plan_facts", "remove_interface_exact_wf", "remove_interface_byName",
 )]
 TRUSTED_BASE = [
-    "Model/Remove.lean mirrors by hand remove_cp_and_links / remove_ns_with_cps_and_links / remove_component_with_nss_cps_and_links / "
-    "remove_network_node_with_components_nss_cps_and_links / remove_network_link (abc_property_graph.py), Topology.remove_node/"
-    "remove_facility/remove_switch/remove_link/remove_network_service, Node.remove_component/remove_network_service, "
-    "NetworkService.disconnect_interface/unpeer, Interface.remove_child_interface and the deletion phase of ExperimentTopology.prune; "
-    "checked differentially on every applicable operation of generated topologies",
-    "name -> element lookups (find_node_by_name, find_component_by_name, ...) and the collection phase of prune are done by the harness, not modelled",
-    "networkx Graph.remove_node (node and incident edges disappear) modelled by G.minus; Python set iteration order modelled by list order "
-    "(the theorems hold for every edge order)",
+    "Model/Remove.lean mirrors by hand the bodies of remove_cp_and_links, Interface.get_peers, find_peer_connection_points, "
+    "NetworkService.disconnect_interface / unpeer (peering search), Topology._disconnect_interfaces and the interface-list properties; "
+    "which helper every removal call invokes, in which order, with which delete_parent, the length tests of remove_cp_and_links, "
+    "the argument shape of _disconnect_interfaces and the loops of prune are NOT hand-mirrored: gen/removalplan.py regenerates them "
+    "from the AST on every run, the driver runs their interpretation (Model/RemovePlan.lean) and plan_bridge ties it to the "
+    "functions the theorems are about",
+    "Model/RemoveNames.lean mirrors by hand the name lookups (find_node_by_name: none/several raise; find_*_by_name under a parent: "
+    "first neighbour; name-keyed dictionaries: last wins) and the collection phase of prune; checked differentially on every "
+    "by-name call, including names that resolve to nothing, to another class, to several elements",
+    "networkx Graph.remove_node (node and incident edges disappear) modelled by G.minus; delete_node of the element itself right after "
+    "its class check modelled as unconditional; Python set iteration order modelled by list order (the theorems hold for every order); "
+    "neighbour order = edge-list order (observable only with equal sibling names, which the API refuses)",
     "only the NetworkX backend runs offline; the removal functions live in ABCPropertyGraph and use only its abstract queries",
+    "well-formedness WF (and NamesOK for the by-name theorems) is a decidable predicate evaluated by the driver on every case; that every "
+    "topology reachable through the building API satisfies it is C07's invariant, not proved here",
 ]
 ASSUMPTIONS = [
-    "ExperimentTopology on the NetworkX store (SubstrateTopology-only NetworkService.remove_interface is checked to refuse in experiment topologies, not exercised)",
-    "no explicit link has two ends in one interface family (a port and its sub-interfaces), no link joins a ServicePort other than the one created by connect_interface()/peer()",
-    "elements are addressed by unique names (C07's invariant)",
+    "ExperimentTopology (connect_interface / peer / prune) and SubstrateTopology (caller-supplied node ids, services of nodes with their "
+    "own interfaces, explicit links, NetworkService.remove_interface) on the NetworkX store",
+    "no explicit link has two ends in one interface family (a port and its sub-interfaces) - there remove_cp_and_links counts the ends "
+    "once for the whole family; no link joins a ServicePort other than the one created by connect_interface()/peer() (both in WF)",
+    "elements addressed through Topology-level calls carry names unique in their class (C07's invariant); an ambiguous name must raise",
 ]
-RULE = ("every applicable removal / disconnect / un-peer / remove-child / prune on topologies built through the public API from seeded recipes "
-        "(1-4 nodes, NICs with 1-2 ports, sub-interfaces, facility, switch, 0-3 services with connected interfaces, peerings, explicit links "
-        "with 1-4 ends, reservation marks); non-trivial = the topology has a service with a connected interface and the operation deletes "
-        "at least one element; distinct by (canonical graph, operation)")
+RULE = ("every applicable removal / disconnect / un-peer / remove-child / remove-interface / prune on topologies built through the public API "
+        "from seeded recipes (1-4 nodes, NICs with 1-2 ports, sub-interfaces, facility with 1-3 interfaces, switch, 0-3 services with connected "
+        "interfaces, peerings, explicit links with 1-4 ends, reservation marks; names plain / reused / prefix-related / equal across classes; "
+        "generated or caller-supplied prefix-related node ids; experiment and substrate flavour), each sent to the model by id and by name, plus "
+        "calls whose name resolves to nothing / another class / a node of the wrong kind; non-trivial = the topology has a service with a "
+        "connected interface and the operation deletes at least one element; distinct by (canonical graph, operation)")
 
-LEAN_OP = {"remove_node": "remove_node", "remove_switch": "remove_switch", "remove_facility": "remove_facility",
-           "remove_component": "remove_component", "node_remove_ns": "remove_ns", "remove_network_service": "remove_ns",
+LEAN_OP = {"remove_interface": "remove_interface", "remove_node": "remove_node", "remove_switch": "remove_switch", "remove_facility": "remove_facility",
+           "remove_component": "remove_component", "remove_storage": "remove_component", "node_remove_ns": "remove_ns", "remove_network_service": "remove_ns",
            "remove_link": "remove_link", "disconnect": "disconnect", "unpeer": "unpeer", "remove_child": "remove_child",
            "prune": "prune", "g_remove_ns": "g_remove_ns", "g_remove_link": "g_remove_link", "g_remove_cp": "g_remove_cp", "g_remove_comp": "g_remove_comp", "g_remove_node": "g_remove_node"}
 
@@ -64,6 +77,8 @@ def recipes(ctx, tag, n):
     rng = ctx.sub_rng(tag)
     rs = corpus_cases() + [(r, None) for r in L.corner_recipes()]
     rs += [(L.gen_recipe(rng), None) for _ in range(n)]
+    # substrate flavour: supplied prefix-related node ids, services of nodes with their own interfaces, remove_interface
+    rs += [(L.gen_substrate_recipe(rng), None) for _ in range(max(2, n // 5))]
     return rs
 
 
@@ -264,6 +279,10 @@ def lean_request(L, b, s0, op, recipe, wn, we):
         p = L.resolve_if(b, op[1])
         args = [R[p.node_id], R[p.interfaces[op[2]].node_id]]
         h1 = hpairs(s0, p._interfaces)
+    elif k == "remove_interface":
+        s = b.t.nodes[op[1]].network_services[op[2]]
+        args = [R[s.node_id], R[s.interface_list[op[3]].node_id]]
+        h1 = hpairs(s0, s._interfaces)
     elif k == "prune":
         roots = {"node": [], "comp": [], "service": [], "iface": []}
         for st in recipe:
@@ -314,7 +333,7 @@ def lean_request_byname(L, b, s0, op, recipe, wn5, we):
         lk = {"remove_node": "n_remove_node", "remove_switch": "n_remove_switch", "remove_facility": "n_remove_facility",
               "remove_network_service": "n_remove_ns", "remove_link": "n_remove_link"}[k]
         args = [name_code(s0, op[1])]
-    elif k == "remove_component":
+    elif k in ("remove_component", "remove_storage"):
         lk, args = "n_node_remove_component", [R[t.nodes[op[1]].node_id], name_code(s0, op[2])]
     elif k == "node_remove_ns":
         n = t.facilities[op[1][1]] if op[1][0] == "fac" else t.nodes[op[1][1]]
@@ -322,6 +341,9 @@ def lean_request_byname(L, b, s0, op, recipe, wn5, we):
     elif k == "remove_child":
         p = L.resolve_if(b, op[1])
         lk, args, h1 = "n_remove_child", [R[p.node_id], name_code(s0, op[2])], hpairs(s0, p._interfaces)
+    elif k == "remove_interface":
+        s = t.nodes[op[1]].network_services[op[2]]
+        lk, args, h1 = "n_remove_interface", [R[s.node_id], name_code(s0, s.interface_list[op[3]].name)], hpairs(s0, s._interfaces)
     elif k == "prune":
         lk, args = "n_prune", []
     else:
@@ -361,7 +383,7 @@ def all_runs(ctx, tag, n):
 
 
 def correspondence(ctx, res, n=None):
-    recs = [r for r in all_runs(ctx, "run", n or ctx.scale(36, 220)) if not r.get("skip") and (r.get("lean") or r.get("lean_n"))]
+    recs = [r for r in all_runs(ctx, "run", n or ctx.scale(24, 200)) if not r.get("skip") and (r.get("lean") or r.get("lean_n"))]
     lines, owner = [], []
     for r in recs:
         for key in ("lean", "lean_n"):
@@ -447,7 +469,7 @@ def judge(rec, res):
 
 
 def oracle(ctx, res, n=None):
-    recs = all_runs(ctx, "run", n or ctx.scale(36, 220))
+    recs = all_runs(ctx, "run", n or ctx.scale(24, 200))
     for r in recs:
         if r.get("skip"):
             res.count("skipped")
